@@ -33,6 +33,7 @@ fn main() {
         "C08" => props::c08::main(&args),
         "C09" => props::store::main(&args, props::store::Focus::Rollback),
         "C10" => props::store::main(&args, props::store::Focus::Differential),
+        "C16" => props::c16::main(&args),
         "C18" => props::c18::main(&args),
         other => {
             eprintln!("unknown property {other}");
